@@ -15,7 +15,6 @@ From RU Require Import Base.Prelude Base.Utf8 Base.Utf8Facts Model.AsciiSet Gen.
   Proofs.C02_JoinTail Proofs.C02_JoinPath Proofs.C06_Segments.
 Open Scope N_scope.
 Open Scope list_scope.
-Set Default Timeout 20.
 
 (* ---------- the PATH_SEGMENT encodings ---------- *)
 Definition seg_set (st : scheme_type) : aset := if st_is_special st then T_SPECIAL_PATH_SEGMENT else T_PATH_SEGMENT.
